@@ -139,7 +139,7 @@ claim('C01', 'linear size algebra over the encoder methods (normal-form equality
       'views end at -val); signature shrink bookkeeping and the 253 guard; make_* encode, then shrink iff shrink_size > 0, return that '
       'buffer; make_interest/parse_interest copy the same six InterestParam fields name-to-name and pass name/params/payload through; '
       'the parameters-digest component is type 0x02, length 32, announced as 34 bytes, its buffer is the 32-byte value; VAR-NUMBER tables. '
-      'the digest written into it is computed after the signature over the range ending at the shrunk signature (rules shared with C02); '
+      'the final name gets the wire region of the digest component also when the caller supplied a placeholder; the digest written into it is computed after the signature over the range ending at the shrunk signature (rules shared with C02); '
       'Does not decide equality of returned values for all names/payloads or the signers themselves.',
       'struct widths; signer.get_signature_value_size() >= real size')
 
